@@ -28,7 +28,10 @@ CLAIMED = {
             "shape; the crop uses the block and matrix prepared for the same molecule; declared array shape == task shape) "
             "and _post_align writes result i to row i next to molecule i's own feature row, without modifying the source.",
             NOTE + "iter_mapping_tasks pairing is covered through construct_landscape (task i gets kwargs row i; "
-            "dict_iterrows trusted); BatchLoader task order and loader groups are not under contract (see DESIGN.md: limits)."),
+            "dict_iterrows trusted); LoaderAccessor.__iter__ (1 and 2 tomograms) yields the per-tomogram loaders in molecule "
+            "order when each tomogram's molecules are contiguous in the table (otherwise: recorded known finding); uses the "
+            "trusted derived lemma 'contiguous keys => consecutive groups' of the polars group_by contract; loader groups "
+            "are not under contract."),
     "C05": ("DESIGN.md section 2 / C05",
             "Deductive, all inputs: for every max_shifts >= 0 (not only the 1/20 grid) the backend alignment kernels "
             "(_create_mesh, upsample, subpixel_zncc/ncc/pcc/fsc, crop_by_max_shifts, ncc_landscape chain) raise no "
